@@ -66,7 +66,7 @@ class C19(Prop):
         c = g["call"]
         modobj = {"tags": H.tags, "svg": H.svg, "top": H}[c["mod"]]
         f = getattr(modobj, c["f"], None)
-        rec = {"call": c, "exists": callable(f), "exc": "none", "name": "", "ws": False, "eq": False, "same": True, "gen": g}
+        rec = {"call": c, "exists": callable(f), "exc": "none", "name": "", "ws": False, "eq": False, "same": True, "fresh": True, "gen": g}
         if not callable(f):
             return rec
         if c["mod"] == "top":
@@ -83,6 +83,21 @@ class C19(Prop):
         except Exception as ex:  # noqa
             rec["exc"] = type(ex).__name__
             return rec
+        # every call creates its own element: a second identical call gives a distinct object that does not see what
+        # was done to the first one in between
+        try:
+            t.add_class("verif-mark")
+            t.append("verif-child")
+            args3, kw3 = shape_args(c["shape"], H)
+            kw3 = dict(kw3)
+            if c["addws"] != "default":
+                kw3["_add_ws"] = ADDWS[c["addws"]]
+            t2 = f(*args3, **kw3)
+            rec["fresh"] = bool(t2 is not t and not t2.has_class("verif-mark") and "verif-child" not in list(t2.children))
+            t.remove_class("verif-mark")
+            t.children.pop()
+        except Exception:  # noqa
+            rec["fresh"] = False
         rec["name"] = t.name if isinstance(t, H.Tag) and type(t.name) is str else "?"
         rec["ws"] = bool(t.add_ws) if isinstance(getattr(t, "add_ws", None), bool) else False
         args2, kw2 = shape_args(c["shape"], H)
